@@ -41,8 +41,11 @@ def strategy(tier, mode):
     e = gen.expression_case(mode, cap=cap, max_len=5, depth=2)
     # constructions the library normally refuses (a strict diagonal whose broadcasting would change a leaf shape, a
     # non-square observation matrix): refusing is fine; if one is accepted, what it declares must still be what mv returns
+    from .c10 import single_case as block_case
+
     b = borderline_case(mode)
-    return st.integers(0, 11).flatmap(lambda i: b if i == 0 else e)
+    w = block_case(mode, wide=True, allow_cg=False)  # block operators with 9-17 blocks
+    return st.integers(0, 11).flatmap(lambda i: b if i == 0 else (w if i == 1 else e))
 
 
 def _actual_matches(S, value, key, what):
